@@ -1562,7 +1562,8 @@ struct SortByHighDegreeParent : public Conversion {
         break;
       }
     }
-    std::cout << "Zero is at " << perm2[0] << "\n";
+    if (perm2.size())
+      std::cout << "Zero is at " << perm2[0] << "\n";
 
     // do actual permutation of the graph
     Graph out;
